@@ -61,6 +61,7 @@ type deferRec struct {
 	call  *ast.CallExpr
 	args  []Value
 	frame *Frame
+	cond  string // "" or the condition under which this defer was registered (paths merged after a conditional defer)
 }
 
 type Frame struct {
@@ -397,7 +398,10 @@ func (e *Engine) verifyFunc(fc *FuncContract) []*Oblig {
 		return v.obligs
 	}
 	v.decl = decl
-	fnobj := pkg.TypesInfo.Defs[decl.Name].(*types.Func)
+	fnobj, _ := pkg.TypesInfo.Defs[decl.Name].(*types.Func)
+	if lit := e.litOf[full]; lit != nil {
+		fnobj = types.NewFunc(lit.Pos(), pkg.Types, decl.Name.Name, pkg.TypesInfo.TypeOf(lit).(*types.Signature))
+	}
 	v.fnobj = fnobj
 	sig := fnobj.Type().(*types.Signature)
 	e.ctx.bv = fc.BV
@@ -479,6 +483,7 @@ func (e *Engine) verifyFunc(fc *FuncContract) []*Oblig {
 	}
 	v.initLog(st)
 	v.checkNoEscape()
+	v.checkInterruptible()
 	v.nowriteOn = v.isNoWrite()
 	v.entry = st.fork()
 	// preconditions
@@ -1363,10 +1368,27 @@ func (v *FnV) runDefers(ex *Exit, fr *Frame) {
 		d := st.defers[len(st.defers)-1]
 		st.defers = st.defers[:len(st.defers)-1]
 		ran = true
-		if d.lit != nil {
-			v.inlineLit(st, d.lit, d.frame, nil)
-		} else if d.call != nil {
-			v.callWithArgs(st, d.call, d.args)
+		run := func(s *State) {
+			if d.lit != nil {
+				v.inlineLit(s, d.lit, d.frame, nil)
+			} else if d.call != nil {
+				v.callWithArgs(s, d.call, d.args)
+			}
+		}
+		if d.cond == "" {
+			run(st)
+		} else {
+			// registered on some of the merged paths only
+			base := len(st.items)
+			sT := st.fork()
+			sT.assume(d.cond)
+			run(sT)
+			sF := st.fork()
+			sF.assume(sNot(d.cond))
+			if m := v.merge(base, sT, sF); m != nil {
+				m.defers = st.defers
+				*st = *m
+			}
 		}
 	}
 	if ran {
